@@ -38,6 +38,7 @@ type c14Op struct {
 	Pw      string
 	Chal    string // cur | prev | other | zeros | empty
 	Garbage string
+	Domain  string // the domain name the client puts into its authenticate message (and into its key)
 }
 
 func (o c14Op) String() string {
@@ -48,6 +49,9 @@ func (o c14Op) String() string {
 		k := o.KeyUser
 		if k == "" {
 			k = "self"
+		}
+		if o.Domain != "" {
+			return fmt.Sprintf("auth(s%d,%s,domain=%s,key=%s,pw=%q,chal=%s)", o.Sess, o.Claimed, o.Domain, k, o.Pw, o.Chal)
 		}
 		return fmt.Sprintf("auth(s%d,%s,key=%s,pw=%q,chal=%s)", o.Sess, o.Claimed, k, o.Pw, o.Chal)
 	case "garbage":
@@ -90,6 +94,13 @@ func c14Alphabet(full bool) []c14Op {
 					ops = append(ops, c14Op{Kind: "auth", Sess: s, Claimed: c, KeyUser: k.key, Pw: k.pw, Chal: ch})
 				}
 			}
+		}
+	}
+	// clients that name a domain (it enters the proof on both sides)
+	for _, d := range []string{"CORP", "gateway.example.com"} {
+		ops = append(ops, c14Op{Kind: "auth", Sess: 0, Claimed: "alice", Pw: c14DB["alice"], Chal: "cur", Domain: d})
+		if full {
+			ops = append(ops, c14Op{Kind: "auth", Sess: 0, Claimed: "alice", Pw: "wrong", Chal: "cur", Domain: d})
 		}
 	}
 	gs := []string{"not-base64", "type2"}
@@ -212,7 +223,7 @@ func c14Run(hist []c14Op, rep *Report) (viol, detail string, trace []string) {
 				// no such challenge exists yet: answer a made-up one
 				ch = &ntlmc.Challenge{ServerChallenge: []byte{9, 9, 9, 9, 9, 9, 9, 9}}
 			}
-			msg := ntlmc.Authenticate(ntlmc.AuthParams{User: op.Claimed, KeyUser: op.KeyUser, Password: op.Pw, ServerChallenge: ch.ServerChallenge, TargetInfo: ch.TargetInfo})
+			msg := ntlmc.Authenticate(ntlmc.AuthParams{User: op.Claimed, KeyUser: op.KeyUser, Password: op.Pw, Domain: op.Domain, ServerChallenge: ch.ServerChallenge, TargetInfo: ch.TargetInfo})
 			r, err, pan := call(op.Sess, base64.StdEncoding.EncodeToString(msg))
 			if pan != "" {
 				return "panic", fmt.Sprintf("step %d %s: %s", i, op, pan), trace
